@@ -335,8 +335,27 @@ func (w *workerState) run(task Task) Reply {
 			if r2.Leaked {
 				w.leaked++
 			}
-			if r2.EngineErr != "" || fmt.Sprint(r2.Frontier) != fmt.Sprint(r.Frontier) || r2.Outcome == nil || r2.Outcome.Key != rep.Key {
-				rep.EngineErr = fmt.Sprintf("NONDETERMINISM (bfs): re-execution differs\n  scenario=%s prefix=%v\n  first=%v %s\n  second=%v %s", task.Scenario, task.Prefix, r.Frontier, rep.Key, r2.Frontier, r2.EngineErr)
+			differs := func(x *Result) bool {
+				return x.EngineErr != "" || fmt.Sprint(x.Frontier) != fmt.Sprint(r.Frontier) || x.Outcome == nil || x.Outcome.Key != rep.Key
+			}
+			if differs(r2) {
+				// as in the depth-first mode: an execution that does not reproduce (a choice sarama makes by map order or by a
+				// two-way select) is left out with everything behind it and reported; its siblings go on. Two more tries first.
+				again := false
+				for k := 0; k < 2 && !again; k++ {
+					rk := ExecuteHalt(w.t, sc, task.Prefix)
+					rep.Rechecked++
+					if rk.Leaked {
+						w.leaked++
+					}
+					again = !differs(rk)
+				}
+				if again {
+					rep.Stats["bfs-state-reproduced-after-retry"]++
+				} else {
+					rep.Nondet = append(rep.Nondet, fmt.Sprintf("NONDETERMINISM (bfs): re-execution differs\n  scenario=%s prefix=%v\n  first=%v %s\n  second=%v %s", task.Scenario, task.Prefix, r.Frontier, rep.Key, r2.Frontier, r2.EngineErr))
+					rep.Frontier = nil
+				}
 			}
 		}
 		if w.leaked > 400 {
@@ -1002,7 +1021,7 @@ func (e *Explorer) BFS(scenario string, maxDepth int, prune bool) (keys map[stri
 			mu.Lock()
 			defer mu.Unlock()
 			transitions++
-			if r.EngineErr != "" {
+			if r.EngineErr != "" || len(r.Nondet) > 0 {
 				return
 			}
 			if _, seen := keys[r.Key]; seen && prune {
